@@ -83,3 +83,26 @@ func (v *VerifBlobLeaseManager) CreatePartitions(ctx context.Context, count int)
 func (v *VerifBlobLeaseManager) LeasePartition(ctx context.Context, id string, index uint32) time.Duration {
 	return v.m.leasePartition(ctx, id, index)
 }
+
+// VerifDrainBuffer receives (without blocking) everything that is in the Batcher's buffer channel, so that a
+// harness can end a scenario in which senders are still blocked on a full buffer. It returns the number drained.
+func VerifDrainBuffer(r IBatcher) (n int) {
+	br, ok := r.(*Batcher)
+	if !ok {
+		return 0
+	}
+	defer func() { _ = recover() }()
+	for {
+		select {
+		case op, ok := <-br.buffer:
+			if !ok {
+				return
+			}
+			if op != nil {
+				n++
+			}
+		default:
+			return
+		}
+	}
+}
